@@ -450,6 +450,7 @@ def p_C04(ctx):
         acc_replays(ctx, r2, [("dev", "u32"), ("release", "elem")], "mutview-nested")
     acc_random(ctx, ["prim", "move", "move", "copy", "copy", "write", "sort"], 9000 if ctx.quick else 90000, 12, only_views=True, profile="dev", large_share=0.35)
     acc_random(ctx, ["prim", "move", "copy", "write", "sort"], 2000 if ctx.quick else 30000, 9, only_views=True, profile="release", elem="elem", label="big-elem")
+    acc_random(ctx, ["prim", "move", "copy", "write"], 1500 if ctx.quick else 20000, 9, only_views=True, profile="release", elem="w1k", label="kib-elem", large_share=0.4)
     # mutable iteration in EVERY call order (not only forwards / backwards): all call sequences of the mutable iterators
     # through every window, every yielded reference written through, whole root compared (SeqIter.tla / IterMC.tla)
     mk = ["rows_mut", "col_mut", "cells_mut", "into_mut"]
@@ -472,13 +473,15 @@ def p_C13(ctx):
     shapes = [0, 11, 13, 31, 23, 32, 33] if ctx.quick else ALL_SHAPES4
     r = acc_tlc(ctx, "prims", ["prim"], shapes, kinds=("owned", "plain", "slice_m"), depth=1,
                 bigs=(BIG_MAX, BIG_WRAP) if ctx.quick else (BIG_MAX, BIG_HALF1, BIG_P32, BIG_WRAP), workers=8 if ctx.quick else 12)
-    combos = [("dev", "u32"), ("release", "elem"), ("dev", "elem"), ("release", "b3")]      # b3: a 3-byte element type
+    # b3 / b1 / w80: Copy element types of 3, 1 and 80 bytes (word-at-a-time, memset and "large element" fast paths)
+    combos = [("dev", "u32"), ("release", "elem"), ("dev", "elem"), ("release", "b3"), ("release", "b1"), ("release", "w80")]
     if not ctx.quick:
-        combos += [("release", "u32"), ("dev", "zst"), ("dev", "b3")]
+        combos += [("release", "u32"), ("dev", "zst"), ("dev", "b3"), ("dev", "b1"), ("dev", "w80")]
     acc_replays(ctx, r, combos, "prims")
     acc_random(ctx, ["prim"], 3000 if ctx.quick else 40000, 12, profile="dev")
     acc_random(ctx, ["prim"], 2000 if ctx.quick else 20000, 12, profile="release", elem="elem", label="big-elem")
     acc_random(ctx, ["prim"], 2000 if ctx.quick else 20000, 12, profile="release", elem="b3", label="big-b3")
+    acc_random(ctx, ["prim"], 1000 if ctx.quick else 10000, 12, profile="release", elem="w1k", label="kib-elem", large_share=0.4)
 
 
 def p_C14(ctx):
@@ -491,10 +494,11 @@ def p_C14(ctx):
     shapes = [0, 11, 13, 31, 23, 32, 33] if ctx.quick else ALL_SHAPES4
     r = acc_tlc(ctx, "copies", ["copy"], shapes, kinds=("owned", "plain", "slice_m"), depth=1,
                 bigs=(BIG_MAX,) if ctx.quick else (BIG_MAX, BIG_HALF1, BIG_WRAP), workers=8 if ctx.quick else 12)
-    combos = [("dev", "u32"), ("release", "b3"), ("dev", "elem")] + ([] if ctx.quick else [("release", "u32"), ("dev", "b3")])
+    combos = [("dev", "u32"), ("release", "b3"), ("dev", "elem"), ("release", "w80"), ("release", "b1")] + ([] if ctx.quick else [("release", "u32"), ("dev", "b3"), ("dev", "w80")])
     acc_replays(ctx, r, combos, "copies")
     acc_random(ctx, ["copy"], 9000 if ctx.quick else 80000, 12, profile="dev", large_share=0.4)
     acc_random(ctx, ["copy"], 6000 if ctx.quick else 40000, 12, profile="release", label="big-rel", large_share=0.4)
+    acc_random(ctx, ["copy"], 1500 if ctx.quick else 20000, 12, profile="release", elem="w1k", label="kib-elem", large_share=0.4)
 
 
 def p_C15(ctx):
@@ -506,11 +510,13 @@ def p_C15(ctx):
     n = 6 if ctx.quick else 9
     big_shapes = [c * 10 + r for c in range(1, n + 1) for r in range(1, n + 1)] + [0]
     r = acc_tlc(ctx, "moves-owned", ["move"], big_shapes, kinds=("owned", "plain"), depth=0, workers=8)
-    acc_replays(ctx, r, [("dev", "u32"), ("release", "elem")], "moves-owned")
+    acc_replays(ctx, r, [("dev", "u32"), ("release", "elem"), ("release", "w80")], "moves-owned")
     r2 = acc_tlc(ctx, "moves-views", ["move"], [13, 31, 23, 32, 33] if ctx.quick else ALL_SHAPES4, kinds=("owned", "slice_m"), depth=1, workers=8)
-    acc_replays(ctx, r2, [("dev", "u32"), ("release", "b3"), ("dev", "elem")], "moves-views")
+    acc_replays(ctx, r2, [("dev", "u32"), ("release", "b3"), ("dev", "elem"), ("release", "b1"), ("release", "w80")], "moves-views")
     acc_random(ctx, ["move"], 4000 if ctx.quick else 60000, 16, profile="dev")
     acc_random(ctx, ["move"], 2000 if ctx.quick else 30000, 16, profile="release", elem="elem", label="big-elem")
+    # 1 KiB elements: rows of a few dozen cells are already "larger than the cache" for any byte-size-gated path
+    acc_random(ctx, ["move"], 1500 if ctx.quick else 20000, 16, profile="release", elem="w1k", label="kib-elem", large_share=0.4)
 
 
 def sort_pipeline(ctx, by):
@@ -520,14 +526,15 @@ def sort_pipeline(ctx, by):
     shapes = [0, 11, 13, 31, 23, 32, 33, 14, 41] if ctx.quick else ALL_SHAPES4
     r = acc_tlc(ctx, "sorts", [grp], shapes, kinds=("owned", "plain", "slice_m"), depth=1,
                 bigs=(BIG_MAX, BIG_WRAP), workers=8 if ctx.quick else 12)
-    combos = [("dev", "u32"), ("release", "elem"), ("release", "b3")]
+    combos = [("dev", "u32"), ("release", "elem"), ("release", "b3"), ("release", "w80")]      # w80: an 80-byte element
     if not ctx.quick:
-        combos += [("dev", "elem"), ("release", "u32"), ("dev", "b3")]
+        combos += [("dev", "elem"), ("release", "u32"), ("dev", "b3"), ("dev", "w80")]
     acc_replays(ctx, r, combos, "sorts")
     # long key lines: recorded from the real crate by the random driver, judged by TLC (SortTrace.tla)
     want = "row" if by == "row" else "col"
     acc_random(ctx, ["sort"], 3000 if ctx.quick else 40000, 14, profile="dev")
     acc_random(ctx, ["sort"], 1500 if ctx.quick else 20000, 14, profile="release", elem="b3", label="big-b3")
+    acc_random(ctx, ["sort"], 800 if ctx.quick else 10000, 14, profile="release", elem="w1k", label="kib-elem")
     n = 500 if ctx.quick else 5000
     for prof in ("dev", "release"):
         ctx.drive_and_validate("bigsorts", ["sort", ctx.seed + (0 if prof == "dev" else 7919), n, "{out}"], "SortTrace", attr_sort_event,
@@ -873,7 +880,8 @@ def p_C11(ctx):
         f = ev.get("fault", {})
         return ({"C11"} if f.get("kind") in ("panic_at", "lie") else {"C11", "C12"}) | ({"C05"} if ledger_evidence(ev) else set()), {"family": "fault-drive", "op": ev.get("ev"), "kind": "trace_rejected", "fault": f.get("kind")}
     nh, steps = (250, 40) if ctx.quick else (3000, 80)
-    for prof, seed_off, el in (("dev", 21, "elem"), ("release", 22, "tok")):
+    # w1k: 1 KiB elements - a few dozen cells already exceed byte-size thresholds of "large array" paths
+    for prof, seed_off, el in (("dev", 21, "elem"), ("release", 22, "tok"), ("release", 23, "w1k")):
         ctx.drive_and_validate("drive-faults-" + el, ["hist", ctx.seed + seed_off, nh, steps, 6, "{out}", el, "faults"], "TooDeeTrace",
                                attr_fault_drive_event, profile=prof, invariants=("ShapeOK", "HandleOK"))
 
@@ -907,7 +915,8 @@ def p_C12(ctx):
         f = ev.get("fault", {})
         return ({"C12"} if f.get("kind") == "forget" else {"C11", "C12"}) | ({"C05"} if ledger_evidence(ev) else set()), {"family": "fault-drive", "op": ev.get("ev"), "kind": "trace_rejected", "fault": f.get("kind")}
     nh, steps = (250, 40) if ctx.quick else (3000, 80)
-    for prof, seed_off, el in (("dev", 21, "elem"), ("release", 22, "tok")):
+    # w1k: 1 KiB elements - a few dozen cells already exceed byte-size thresholds of "large array" paths
+    for prof, seed_off, el in (("dev", 21, "elem"), ("release", 22, "tok"), ("release", 23, "w1k")):
         ctx.drive_and_validate("drive-faults-" + el, ["hist", ctx.seed + seed_off, nh, steps, 6, "{out}", el, "faults"], "TooDeeTrace",
                                attr_fault_drive_event, profile=prof, invariants=("ShapeOK", "HandleOK"))
 
